@@ -463,7 +463,13 @@ class Resolver:
                 if isinstance(node, ast.Assign) and len(node.targets) == 1:
                     tgt = node.targets[0]
                     if isinstance(tgt, ast.Name) and tgt.id == expr.id:
-                        return self.expr_classes(fn, node.value, depth + 1)
+                        got_v = self.expr_classes(fn, node.value, depth + 1)
+                        ann = getattr(node, "_annotation", None)
+                        if not got_v and ann is not None:
+                            got_a = self.resolve_class(mod, ann)
+                            if got_a is not None:
+                                return [got_a]
+                        return got_v
                 if isinstance(node, ast.AnnAssign) and isinstance(node.target, ast.Name) and node.target.id == expr.id:
                     got = self.resolve_class(mod, node.annotation)
                     if got is not None:
